@@ -51,14 +51,17 @@ func (n *LocalNode) Join(peer chord.VNode) error {
 		return err
 	}
 
+	// publish the predecessor before the successors: from the moment we have a successor we
+	// answer lookups, and without a predecessor we would route keys we are about to own
+	// back to the successor, which forwards them to us again (while holding its locks)
+	n.predecessorMu.Lock()
+	n.predecessor = predecessor
+	n.predecessorMu.Unlock()
+
 	n.successorsMu.Lock()
 	n.succListHash.Store(n.hash(successors))
 	n.successors = successors
 	n.successorsMu.Unlock()
-
-	n.predecessorMu.Lock()
-	n.predecessor = predecessor
-	n.predecessorMu.Unlock()
 
 	n.startTasks()
 
